@@ -16,6 +16,9 @@ Failed(t) ==
         edgesOfMember(i) == Pairs(mem(i))
         mcs == MaxCliques(e0)                  \* evaluated at most once per trace (lazy LET)
         members == {mem(i) : i \in DOMAIN cov}
+        covEdges == UNION {edgesOfMember(i) : i \in DOMAIN cov}          \* computed once per trace
+        RECURSIVE SumC2(_)
+        SumC2(i) == IF i > Len(cov) THEN 0 ELSE (Cardinality(mem(i)) * (Cardinality(mem(i)) - 1)) \div 2 + SumC2(i + 1)
     IN
     IF t.timeout THEN {"did_not_terminate"} ELSE
     IF t.raised # "" THEN {"raised"} ELSE
@@ -23,10 +26,11 @@ Failed(t) ==
             "edge_uncovered", "working_graph_has_edges_left", "isolated_maximal_clique_not_intact",
             "returned_cover_changed_by_a_later_cover"} :
        CASE c = "member_not_a_vertex_set" -> \E i \in DOMAIN cov : Cardinality(mem(i)) # Len(cov[i])
-         [] c = "member_not_a_clique_of_the_input" -> \E i \in DOMAIN cov : ~(edgesOfMember(i) \subseteq e0)
+         [] c = "member_not_a_clique_of_the_input" -> ~(covEdges \subseteq e0)
          [] c = "member_size_out_of_bounds" -> \E i \in DOMAIN cov : Cardinality(mem(i)) < 2 \/ Cardinality(mem(i)) > t.m0
-         [] c = "edge_covered_twice" -> \E i, j \in DOMAIN cov : i # j /\ edgesOfMember(i) \cap edgesOfMember(j) # {}
-         [] c = "edge_uncovered" -> UNION {edgesOfMember(i) : i \in DOMAIN cov} # e0
+            \* members are pairwise edge-disjoint iff their edge counts add up to the size of the union (no member repeated either)
+         [] c = "edge_covered_twice" -> SumC2(1) # Cardinality(covEdges)
+         [] c = "edge_uncovered" -> ~(e0 \subseteq covEdges)
          [] c = "returned_cover_changed_by_a_later_cover" -> t.cover_again # t.cover
          [] c = "working_graph_has_edges_left" -> t.has_edges_after
          [] c = "isolated_maximal_clique_not_intact" ->
